@@ -421,6 +421,13 @@ func (g *gRun) resolve(m *coreMarket, status, winner int) error {
 		wn = []string{fmt.Sprint(uidN(m.odds[winner]))}
 	}
 	ts := uint64(g.now)
+	if g.r.Chance(12) {
+		// a result dated before the scheduled start of the market (refused for a declared result; whatever the
+		// implementation accepts must come back from an export valid and unchanged)
+		if mk, ok := g.e.App.MarketKeeper.GetMarket(g.e.Ctx, m.uid); ok && mk.StartTS > 5 {
+			ts = mk.StartTS - uint64(g.r.Range(1, 5))
+		}
+	}
 	tk := g.e.Ticket(0, map[string]interface{}{"uid": m.uid, "resolution_ts": ts, "winner_odds_uids": winners, "status": status})
 	err := g.core("resolve", fmt.Sprintf("MR 1 %d %d %d %d %s", m.n, ts, status, len(wn), strings.Join(wn, " ")), func(e *Env, ctx sdk.Context) error {
 		_, err := marketkeeper.NewMsgServerImpl(*e.App.MarketKeeper).Resolve(sdk.WrapSDKContext(ctx), &markettypes.MsgResolve{Creator: e.Accts[0].String(), Ticket: tk})
